@@ -36,10 +36,29 @@ def c14_r1(ctx):
     t1 = _discard_tests(ai)
     t2 = _discard_tests(cm)
     ok = len(t1) == 1 and len(t2) == 1
-    a = norm.canon(t1[0], norm.aliases(ai.node)) if t1 else ""
-    b = norm.canon(t2[0], norm.aliases(cm.node)) if t2 else ""
-    # same predicate up to the name of the local holding the global document number
-    same = ok and pm.Alpha(cm).eq(norm.substitute(t2[0], norm.aliases(cm.node)), a)
+    a = b = ""
+    same = False
+    if ok:
+        # both predicates as functions of "the global document number" D:
+        #   all_ids: D is the loop variable over child.all_ids();  collect_matches: D is self.offset + <loop variable over child.matches()>
+        D = ast.Name(id="D", ctx=ast.Load())
+        lv1 = [lp.target.id for lp in ast.walk(ai.node) if isinstance(lp, ast.For) and isinstance(lp.target, ast.Name)
+               and any(norm.call_name(c) == "all_ids" for c in norm.calls_in(lp.iter))]
+        lv2 = [lp.target.id for lp in ast.walk(cm.node) if isinstance(lp, ast.For) and isinstance(lp.target, ast.Name)
+               and any(norm.call_name(c) == "matches" for c in norm.calls_in(lp.iter))]
+        e1 = norm.substitute(norm.inline_defs(t1[0], ai.node), dict((v, D) for v in lv1))
+        e2 = norm.inline_defs(t2[0], cm.node)
+
+        class _G(ast.NodeTransformer):
+            def visit_BinOp(self, n):
+                self.generic_visit(n)
+                if isinstance(n.op, ast.Add) and lv2 and norm.canon(n) in ("(%s + self.offset)" % lv2[0], "(self.offset + %s)" % lv2[0]):
+                    return D
+                return n
+        import copy as _copy
+        e2 = _G().visit(_copy.deepcopy(e2))
+        a, b = norm.canon(e1), norm.canon(e2)
+        same = a == b and "D" in norm.names_in(e1) and len(lv1) == 1 and len(lv2) == 1
     ctx.ob(cls, ok and same, "all_ids() and collect_matches() use the same discard predicate",
            detail="all_ids: %s ; collect_matches: %s" % (a, b), loc=ai.loc)
     for f, tests in ((ai, t1), (cm, t2)):
